@@ -545,18 +545,24 @@ def bounded_real(rng, tier):
     return {"evaluations": evals, "distinct_nontrivial": len(distinct), "failures": failures[:5], "samples": samples}
 
 
-@bounded(P, "unit-strings-real", "to_kilometers on real strings: every advertised unit x {'5', '3.5', '1e3'} x {'', ' ', '  '} spacing")
+@bounded(P, "unit-strings-real", "to_kilometers on real strings: every advertised unit x 14 number spellings accepted by float() (leading/trailing dot, sign, exponent, "
+         "leading zeros and blanks, digit separator) x {'', ' ', '  ', tab} spacing")
 def bounded_units(rng, tier):
     import fractions
     evals, failures, samples, distinct = 0, [], [], set()
     for unit, si in SI_KM.items():
-        for num in ("5", "3.5", "1e3", "0.25"):
-            for sp in ("", " ", "  "):
+        # every spelling float() accepts: leading dot, trailing dot, sign, exponent forms, leading zeros / blanks, digit separator
+        for num in ("5", "3.5", "1e3", "0.25", ".5", "5.", "+2.5", "5e-1", "2.5E+2", ".25e1", "007", " 4", "1_0", "5.e1"):
+            for sp in ("", " ", "  ", "\t"):
                 s = "%s%s%s" % (num, sp, unit)
-                got = GEO.to_kilometers(s)
                 want = float(num) * float(fractions.Fraction(si))
                 evals += 1
                 distinct.add(s)
+                try:
+                    got = GEO.to_kilometers(s)
+                except Exception as exc:
+                    failures.append({"string": s, "raised": repr(exc), "want_km": want})
+                    continue
                 if abs(got - want) > 1e-12 * max(1.0, abs(want)):
                     failures.append({"string": s, "got": got, "want_km": want})
                 elif len(samples) < 3:
